@@ -127,9 +127,20 @@ def gen_case(streams, tier):
     rules = _ENV.get("rules") or [("Hadamard", "_hadamard_ppm")]
     name, rname = rules[w.randrange(len(rules))]
     nt = _candidates()[name][1]
-    labels = w.sample(range(8), nt)
-    return {"op": name, "rule": rname, "wires": labels, "input_seed": w.getrandbits(30),
+    case = {"op": name, "rule": rname, "input_seed": w.getrandbits(30),
             "control_values": [w.randint(0, 1), w.randint(0, 1)]}
+    if name == "QROM":
+        # random tables: 2-8 entries of 1-3 bits, possibly one address wire more than needed
+        L = w.choice([2, 3, 4, 4, 5, 6, 7, 8])
+        width = w.randint(1, 3)
+        n_active = max(1, (L - 1).bit_length())
+        n_control = n_active + (1 if (L <= 4 and w.random() < 0.4) else 0)
+        n_work = max(1, n_control - 1) + (1 if w.random() < 0.2 else 0)
+        case["qrom"] = {"bitstrings": ["".join(str(w.randint(0, 1)) for _ in range(width)) for _ in range(L)],
+                        "n_control": n_control, "n_work": n_work}
+        nt = n_control + width + n_work
+    case["wires"] = w.sample(range(12), nt)
+    return case
 
 
 # ------------------------------------------------------------------------------------------------
@@ -194,6 +205,29 @@ def _enumerate(ops, state, pos, n):
     yield from walk(0, state, (), {}, 1.0)
 
 
+def _ideal_qrom(q):
+    """Documented QROM action, written independently: |a>|t>|w> -> |a>|t xor bitstrings[a]>|w>, identity
+    for addresses beyond the table (qp.matrix(QROM) itself was seen to differ from this for 1-bit data, so
+    it is not used as the specification)."""
+    np = _ENV["np"]
+    bits, nc, nw = q["bitstrings"], q["n_control"], q["n_work"]
+    width = len(bits[0])
+    n = nc + width + nw
+    T = np.zeros((2**n, 2**n), dtype=complex)
+    for idx in range(2**n):
+        b = [(idx >> (n - 1 - k)) & 1 for k in range(n)]
+        a = 0
+        for x in b[:nc]:
+            a = (a << 1) | x
+        data = [int(x) for x in bits[a]] if a < len(bits) else [0] * width
+        out = b[:nc] + [x ^ y for x, y in zip(b[nc:nc + width], data)] + b[nc + width:]
+        j = 0
+        for x in out:
+            j = (j << 1) | x
+        T[j, idx] = 1
+    return T
+
+
 def _reduced(state, keep, n):
     np = _ENV["np"]
     psi = np.moveaxis(state.reshape([2] * n), keep, range(len(keep))).reshape(2 ** len(keep), -1)
@@ -218,6 +252,13 @@ def run_case(case):
     try:
         if name == "Adjoint(TemporaryAND)":
             op = mk(labels, tuple(case["control_values"]))
+        elif name == "QROM" and case.get("qrom"):
+            q = case["qrom"]
+            nc, nw = q["n_control"], q["n_work"]
+            width = len(q["bitstrings"][0])
+            op = qp.QROM(q["bitstrings"], control_wires=labels[:nc], target_wires=labels[nc:nc + width],
+                         work_wires=labels[nc + width:nc + width + nw], clean=True)
+            nt = len(labels)
         else:
             op = mk(labels)
         rule = qp.list_decomps(name)[rname]
@@ -234,13 +275,19 @@ def run_case(case):
         n = len(all_wires)
         targets = [pos[x] for x in labels]
         aux = [i for i in range(n) if i not in targets]
-        T = np.asarray(qp.matrix(op, wire_order=labels)) if name.startswith("Adjoint(") or name == "QROM" \
-            else sim.gate_matrix(name)
+        if name == "QROM":
+            T = _ideal_qrom(case["qrom"] if case.get("qrom") else
+                            {"bitstrings": ["01", "10", "11", "00", "10", "01", "00", "11"], "n_control": 3, "n_work": 2})
+        elif name.startswith("Adjoint("):
+            T = np.asarray(qp.matrix(op, wire_order=labels))
+        else:
+            T = sim.gate_matrix(name)
         per_input_aux = []
         for rep in range(2):
             g = np.random.Generator(np.random.PCG64(case["input_seed"] + rep))
             if domain == "workzero":
-                k = 5  # address + target wires carry the random state, the two work wires start in |0>
+                # address + target wires carry the random state, the work wires start in |0>
+                k = nt - (case["qrom"]["n_work"] if case.get("qrom") else 2)
                 c = g.normal(size=2**k) + 1j * g.normal(size=2**k)
                 c /= np.linalg.norm(c)
                 psi_t = np.kron(c, sim.zero_state(nt - k))
